@@ -14,9 +14,9 @@ vars == <<b, rep, steps, probes>>
 
 Src(name, layout) == [name |-> name, layout |-> layout, sign |-> "plain", dec |-> "dot", header |-> TRUE, status |-> "present", delim |-> "comma"]
 Init == /\ b \in IF PairInit
-                  THEN {[sources |-> <<Src("Card", l), Src("Bank", l)>>, rules |-> "rules", mode |-> "first_match", supp |-> FALSE, views |-> FALSE, xform |-> FALSE, cur |-> "absent", modeBogus |-> FALSE, mfMissing |-> FALSE, vf |-> "ok", year |-> "absent", out |-> "absent"] :
-                          l \in {"L1", "L2", "L4"}}
-                  ELSE {[sources |-> <<Src("Card", l)>>, rules |-> r, mode |-> "first_match", supp |-> FALSE, views |-> FALSE, xform |-> FALSE, cur |-> "absent", modeBogus |-> FALSE, mfMissing |-> FALSE, vf |-> "ok", year |-> "absent", out |-> "absent"] :
+                  THEN {[sources |-> <<Src("Card", l), Src(nm, l)>>, rules |-> "rules", mode |-> "first_match", supp |-> FALSE, views |-> FALSE, xform |-> FALSE, cur |-> "absent", modeBogus |-> FALSE, mfMissing |-> FALSE, vf |-> "ok", year |-> "absent", out |-> "absent", split |-> FALSE] :
+                          l \in {"L1", "L2", "L4"}, nm \in {"Bank", "Card"}}
+                  ELSE {[sources |-> <<Src("Card", l)>>, rules |-> r, mode |-> "first_match", supp |-> FALSE, views |-> FALSE, xform |-> FALSE, cur |-> "absent", modeBogus |-> FALSE, mfMissing |-> FALSE, vf |-> "ok", year |-> "absent", out |-> "absent", split |-> FALSE] :
                           l \in {"L1", "L2", "L4"}, r \in {"none", "rules", "csv"}}
         /\ rep = Report(b) /\ steps = 0 /\ probes = [k \in 1..Len(Probes) |-> Explain(b, Probes[k])]
 
@@ -43,7 +43,8 @@ ChangeBudget ==
   \/ \E v \in {"ok", "missing", "corrupt"} : Set([b EXCEPT !.vf = v])
   \/ \E v \in {"absent", "y2024"} : Set([b EXCEPT !.year = v])
   \/ \E v \in {"absent", "custom"} : Set([b EXCEPT !.out = v])
-  \/ (Len(b.sources) = 1 /\ \E l \in {"L1", "L2", "L4"} : Set([b EXCEPT !.sources = Append(@, Src("Bank", l))]))
+  \/ \E v \in BOOLEAN : Set([b EXCEPT !.split = v])
+  \/ (Len(b.sources) = 1 /\ \E l \in {"L1", "L2", "L4"}, nm \in {"Bank", "Card"} : Set([b EXCEPT !.sources = Append(@, Src(nm, l))]))
 Next == ChangeSource \/ ChangeBudget
 Spec == Init /\ [][Next]_vars
 
@@ -52,7 +53,7 @@ OtherSourcesUntouched ==
   [][\A i \in 1..Len(b.sources) :
         (Len(b'.sources) = Len(b.sources) /\ b'.sources[i] # b.sources[i]
            /\ b'.rules = b.rules /\ b'.mode = b.mode /\ b'.supp = b.supp /\ b'.xform = b.xform) =>
-        SelectSeq(rep'.txns, LAMBDA t : t.src # b.sources[i].name) = SelectSeq(rep.txns, LAMBDA t : t.src # b.sources[i].name)]_vars
+        SelectSeq(rep'.txns, LAMBDA t : t.sid # i) = SelectSeq(rep.txns, LAMBDA t : t.sid # i)]_vars
 Inv_MissingIsolated == \A i \in 1..Len(b.sources) : MissingIsolated(b, i)
 Inv_SupplementalNeverCounted == SupplementalNeverCounted(b)
 \* the flows always add up to the absolute amounts of the counted transactions
